@@ -565,18 +565,39 @@ func VH_ClientSetters() {
 		}
 		pre = len(s.reqs)
 	}
+	if n := vParam("afternowait", 0); n > 0 {
+		// setters that did not wait come first, and nobody collected their ACKs (the kernel's verdict on
+		// each is symbolic): the command under test still sends its own request, whatever it returns
+		for i := 0; i < n; i++ {
+			if vChoose("nowaitkind", 2) == 0 {
+				c.SetBacklogWaitTime(vI32("prewait"), NoWait)
+			} else {
+				c.SetEnabled(vBool("preenabled"), NoWait)
+			}
+		}
+		vAssert(len(s.reqs) == pre+n, "C16/exactly-one-request")
+		pre = len(s.reqs)
+	}
 	defer func() {
 		// the status handed out earlier is still what the kernel sent then, whatever was received since
 		if keptStatus != nil && len(keptBytes) > 0 {
 			vCheckStatus(keptStatus, keptBytes, "C16/status-changed-by-a-later-receive")
 		}
 	}()
+	// the request the command under test put on the wire: exactly one new entry in the kernel's log
+	sent := func() *vRequest {
+		if len(s.reqs) != pre+1 {
+			vAssert(false, "C16/exactly-one-request")
+			return nil
+		}
+		return s.reqs[pre]
+	}
 	switch vChoose("setter", 9) {
 	case 8:
 		// GetStatusAsync: AUDIT_GET, ACK requested only if asked for, the Send's sequence number returned
 		ack := vBool("requireack")
 		seq, err := c.GetStatusAsync(ack)
-		rq := s.last()
+		rq := sent()
 		vAssert(rq != nil && err == nil, "C16/setter-sent-no-request")
 		if rq != nil {
 			vAssert(rq.typ == vUAPI_AUDIT_GET, "C16/get-request-type")
@@ -587,35 +608,42 @@ func VH_ClientSetters() {
 	case 0:
 		en := vBool("enabled")
 		c.SetEnabled(en, wm)
-		vCheckSetRequest(s.last(), vUAPI_STATUS_ENABLED, 1, uint32(vIf(en, 1, 0)))
+		vCheckSetRequest(sent(), vUAPI_STATUS_ENABLED, 1, uint32(vIf(en, 1, 0)))
 	case 1:
 		c.SetImmutable(wm)
-		vCheckSetRequest(s.last(), vUAPI_STATUS_ENABLED, 1, 2)
+		vCheckSetRequest(sent(), vUAPI_STATUS_ENABLED, 1, 2)
 	case 2:
 		fm := vU32("fm")
 		c.SetFailure(FailureMode(fm), wm)
-		vCheckSetRequest(s.last(), vUAPI_STATUS_FAILURE, 2, fm)
+		vCheckSetRequest(sent(), vUAPI_STATUS_FAILURE, 2, fm)
 	case 3:
 		c.SetPID(wm)
-		rq := s.last()
-		vCheckSetRequest(rq, vUAPI_STATUS_PID, 3, vGet32(rq.data[12:]))
-		vAssert(vGet32(rq.data[12:]) != 0, "C16/setpid-sends-zero")
+		rq := sent()
+		if rq != nil && len(rq.data) >= 16 {
+			vCheckSetRequest(rq, vUAPI_STATUS_PID, 3, vGet32(rq.data[12:]))
+			vAssert(vGet32(rq.data[12:]) != 0, "C16/setpid-sends-zero")
+		} else {
+			vCheckSetRequest(rq, vUAPI_STATUS_PID, 3, 0)
+		}
 	case 4:
 		v := vU32("rate")
 		c.SetRateLimit(v, wm)
-		vCheckSetRequest(s.last(), vUAPI_STATUS_RATE_LIMIT, 4, v)
+		vCheckSetRequest(sent(), vUAPI_STATUS_RATE_LIMIT, 4, v)
 	case 5:
 		v := vU32("limit")
 		c.SetBacklogLimit(v, wm)
-		vCheckSetRequest(s.last(), vUAPI_STATUS_BACKLOG_LIMIT, 5, v)
+		vCheckSetRequest(sent(), vUAPI_STATUS_BACKLOG_LIMIT, 5, v)
 	case 6:
 		v := vI32("wait")
 		c.SetBacklogWaitTime(v, wm)
-		vCheckSetRequest(s.last(), vUAPI_STATUS_BACKLOG_WAIT_TIME, 9, uint32(v))
+		vCheckSetRequest(sent(), vUAPI_STATUS_BACKLOG_WAIT_TIME, 9, uint32(v))
 	case 7:
 		// GetStatus sends AUDIT_GET with REQUEST|ACK and no payload
 		c.GetStatus()
-		rq := s.reqs[pre]
+		rq := sent()
+		if rq == nil {
+			return
+		}
 		vAssert(rq.typ == vUAPI_AUDIT_GET, "C16/get-request-type")
 		vAssert(rq.flags == vNLM_F_REQUEST|vNLM_F_ACK, "C16/get-request-flags")
 		vAssert(len(rq.data) == 0, "C16/get-request-payload")
@@ -703,7 +731,7 @@ func VH_ClientHistory() {
 	setPID := false
 	closes := 0
 	for i := 0; i < k; i++ {
-		op := vChoose("op", 6)
+		op := vChoose("op", 7)
 		before := len(s.reqs)
 		switch op {
 		case 0: // a setter without waiting
@@ -736,6 +764,15 @@ func VH_ClientHistory() {
 			}
 			err := c.SetRateLimit(vU32("rate"), WaitForReply)
 			vCheckVerdictC17(s.last(), err)
+		case 6: // SetPID that waits; the kernel may refuse it (symbolic errno). SetPID was used all the
+			// same: Close still has a PID to clear (the request reached the kernel, which may have
+			// registered the PID whatever the client made of the reply)
+			if len(pending) > 0 || closes > 0 {
+				continue
+			}
+			err := c.SetPID(WaitForReply)
+			vCheckVerdictC17(s.last(), err)
+			setPID = true
 		case 3: // WaitForPendingACKs
 			if closes > 0 {
 				continue
